@@ -13,9 +13,21 @@ attribute by attribute: reverse∘reverse, copy, `+=` and paste must keep every 
 single reverse may flip the velocity flag and nothing else, and re-assigning ANY attribute of
 a copied frame must leave the original alone.  The classification oracle derives all four
 components of `check_interfaces` (start, end, middle, cross) from the extreme values.
+
+Order parameters may return several values per frame: order[0] is the PROGRESS COORDINATE, the
+rest are extra collective variables.  Frames are generated with 1, 2 and 3 order values; the
+extra columns are built so that their extremes sit in other frames (and outside the range) of
+the progress coordinate.  The oracle recomputes every classification from the FIRST column
+only; order[1:] is payload that must survive reverse/copy/+=/paste unchanged.
+
+Every case is evaluated under a guard: an exception raised by the implementation, or an answer
+outside the domain of the property (an index outside the path, a value that is no progress
+coordinate, a malformed tuple ...), is a finding reported with the concrete input.
 """
 import importlib.util  # noqa: F401
 import itertools
+import os
+import traceback
 
 import numpy as np
 
@@ -24,9 +36,9 @@ import common
 META = {
     "id": "C15",
     "level": "proof",
-    "technique": "Coq theorems over list model of Path (firstn/rev algebra, extreme values, opaque whole-frame payload) + exhaustive small-scope lock-step of extracted model vs Path/paste_paths on whole System objects",
-    "text": "Unbounded theorems (any segment pair, limit, overlap flag, order sequence, interface list, any content of the frames' other fields) about an executable model of path.py; the model is tied to /repo by running the extracted model and the real Path methods on the same inputs (all sequences over a 5-letter alphabet up to the tier's length, all limits, both flags) and by evaluating the property's statement directly on the implementation's outputs: frames are whole System objects with a non-default value in every field the real class declares (discovered at run time) plus dynamically attached attributes, every attribute in vars(frame) must survive reverse-twice, copy, += and paste (a single reverse flips only vel_rev), re-assigning any attribute of a copied/reversed/added frame must not reach the original, and start, end, middle marker and crossing flags of check_interfaces (and get_start_point/get_end_point) are each recomputed from first/last/min/max.",
-    "note": "Trusted: Coq kernel; extraction (ExtrOcamlBasic) + OCaml driver; the Python harness and its generators. Frames are abstracted to (order[0], vel_rev, object id, payload): the payload (ftag : Z) is opaque in the model and stands for every other attribute in vars(frame) — config, order[1:], pos, vel, ekin, vpot, box, temperature, attributes attached after construction; the harness interns the canonical content (numpy arrays by shape/dtype/bytes, floats by hex) to one integer per distinct content, so a lost, added or altered attribute breaks both the oracle (concrete input reported) and the correspondence. The record was not widened by a separate field because model/PathM.v is shared with C09-C12 (their models and drivers build frames positionally); ftag already is that field. Equality of attributes is by value (a deep-copying System.copy would also pass); in-place mutation of a shared array through a copy is outside the property (it speaks of re-assigning a field). numpy argmin/argmax semantics mirrored as first index of the extreme. Floats: only integer-valued orders are used so comparisons are exact.",
+    "technique": "Coq theorems over list model of Path (firstn/rev algebra, extreme values of the progress coordinate, opaque whole-frame payload) + exhaustive small-scope lock-step of extracted model vs Path/paste_paths on whole System objects with 1-3 order values per frame",
+    "text": "Unbounded theorems (any segment pair, limit, overlap flag, order sequence, interface list, any content of the frames' other fields) about an executable model of path.py; the model is tied to /repo by running the extracted model and the real Path methods on the same inputs (all sequences over a 5-letter alphabet up to the tier's length, all limits, both flags) and by evaluating the property's statement directly on the implementation's outputs: frames are whole System objects with a non-default value in every field the real class declares (discovered at run time) plus dynamically attached attributes, every attribute in vars(frame) must survive reverse-twice, copy, += and paste (a single reverse flips only vel_rev), re-assigning any attribute of a copied/reversed/added frame must not reach the original, and start, end, middle marker and crossing flags of check_interfaces (and get_start_point/get_end_point, ordermin/ordermax, success) are each recomputed from first/last/min/max of the FIRST order column. Frames carry 1, 2 and 3 order values: order[0] is the progress coordinate (the model's ford), order[1:] are extra collective variables generated so that their extremes lie in other frames than, and outside the range of, the progress coordinate; every exhaustive sequence meets all three numbers of columns in every group of cases (classification, reverse, copy, +=), pastes and random cases draw the number. Every case runs under a guard: an exception raised by the implementation, or an answer outside the property's domain (frame index outside the path, value that is no progress coordinate, malformed tuple, marker other than M/*), is reported as a failing input with the case as replay, never as a crash of the check.",
+    "note": "Trusted: Coq kernel; extraction (ExtrOcamlBasic) + OCaml driver; the Python harness and its generators. Frames are abstracted to (order[0], vel_rev, object id, payload): the model's frame carries the PROGRESS COORDINATE order[0] only; extra order columns order[1:] (further collective variables an OrderParameter may return) are PAYLOAD: no classification may depend on them (the oracle recomputes everything from the first column only) and they must survive reverse/copy/+=/paste unchanged (whole-frame oracle on vars(frame)['order'], and they are part of the interned payload the model carries). The payload (ftag : Z) is opaque in the model and stands for every other attribute in vars(frame) — config, order[1:], pos, vel, ekin, vpot, box, temperature, attributes attached after construction; the harness interns the canonical content (numpy arrays by shape/dtype/bytes, floats by hex) to one integer per distinct content, so a lost, added or altered attribute breaks both the oracle (concrete input reported) and the correspondence. The record was not widened by a separate field because model/PathM.v is shared with C09-C12 (their models and drivers build frames positionally); ftag already is that field. Equality of attributes is by value (a deep-copying System.copy would also pass); in-place mutation of a shared array through a copy is outside the property (it speaks of re-assigning a field). numpy argmin/argmax semantics mirrored as first index of the extreme. Floats: only integer-valued orders are used so comparisons are exact.",
     "design_ref": "4/C15",
 }
 LEVEL = "proof"
@@ -34,6 +46,7 @@ LEVEL = "proof"
 ALPHA = [0, 1, 2, 3, 4]   # below / = left / inside / = right / above for interfaces (1,_,3)
 MODELLED = ("order", "vel_rev")   # represented explicitly in the model (order[0], vel_rev); the rest is payload
 DYNAMIC = ("c15_note", "c15_thermostat")   # attributes attached to a frame after construction
+NCOLS = (1, 2, 3)   # order values per frame: the progress coordinate + 0, 1 or 2 extra collective variables
 
 
 # ----------------------------------------------------------------------------- whole frames
@@ -178,6 +191,32 @@ def first_orders(path):
     return out
 
 
+def extra_columns(orders, ncol):
+    """order[1:] of every frame of a path whose progress coordinates are [orders] (integers in
+    [-50, 50)), for ncol = 1, 2 or 3 order values per frame.  Exact dyadic values.
+
+    column 1 = 100.5 - progress: above every progress value, its maximum sits in the frame of the
+               progress MINIMUM and its minimum in the frame of the progress MAXIMUM;
+    column 2 = -100.25 - progress of the NEXT frame (cyclically): below every progress value, its
+               extremes sit one frame before the opposite extremes of the progress coordinate.
+    So whoever takes an extreme over all columns, over the wrong column or over the flattened
+    array ends up in another frame (or outside the path)."""
+    n = len(orders)
+    rows = []
+    for i, o in enumerate(orders):
+        row = []
+        if ncol >= 2:
+            row.append(100.5 - o)
+        if ncol >= 3:
+            row.append(-100.25 - orders[(i + 1) % n])
+        rows.append(row)
+    return rows
+
+
+class OutOfDomain(Exception):
+    """The implementation answered with something the property does not speak about."""
+
+
 class Frames:
     """Generator of fully populated System objects and interning of their payload."""
 
@@ -238,26 +277,30 @@ class Frames:
             self.templ[k] = t
         return t
 
-    def new_frame(self, o, k, rev, style):
+    def new_frame(self, o, k, rev, style, extra=()):
+        """One frame: progress coordinate o, extra collective variables [extra] (order[1:])."""
         s = self.System()
         if style == "sparse":      # only what the engines usually set; the other fields stay default
-            s.order = [float(o)]
+            s.order = [float(o)] + [float(x) for x in extra]
             s.config = (f"file{k}", k)
             s.vel_rev = bool(rev)
             s.vpot = 0.5 * k
             return s
         for name, val in self.template(k).items():
             setattr(s, name, val)
-        s.order = [float(o), 0.5 * k - 3.0]
+        s.order = [float(o)] + [float(x) for x in extra]
         s.vel_rev = bool(rev)
         self.used_fields.update(vars(s))
         return s
 
-    def mk_path(self, orders, maxlen, t0=0, revs=None, tag0=0, style="full"):
+    def mk_path(self, orders, maxlen, t0=0, revs=None, tag0=0, style="full", ncol=None):
         from infretis.classes.path import Path
+        if ncol is None:           # replay files written before the order columns were generated
+            ncol = 1 if style == "sparse" else 2
+        extra = extra_columns(orders, ncol)
         p = Path(maxlen=maxlen, time_origin=t0)
         for i, o in enumerate(orders):
-            p.phasepoints.append(self.new_frame(o, tag0 + i, revs[i] if revs else False, style))
+            p.phasepoints.append(self.new_frame(o, tag0 + i, revs[i] if revs else False, style, extra[i]))
         return p
 
     def tag(self, s, w=None):
@@ -329,15 +372,22 @@ def reassign_all(path):
 # ----------------------------------------------------------------------------- the cases
 # Each evaluator takes a JSON-able description, runs the REAL code and returns
 # (request line for the model, implementation's answer in the model's format, oracle error or None).
+# The request line is built from the inputs alone, BEFORE the implementation is called, and left in
+# box["req"]: evaluate() below turns whatever goes wrong afterwards into a finding on that input.
+# All classifications are recomputed from the FIRST order column (d["orders"]) only.
 
-def case_paste(F, d):
+def P(F, d, orders, maxlen, **kw):
+    return F.mk_path(orders, maxlen, style=d["style"], ncol=d.get("ncol"), **kw)
+
+
+def case_paste(F, d, box):
     from infretis.classes.path import paste_paths
     b, f, ov, m = d["back"], d["forw"], d["overlap"], d["maxlen"]
-    back = F.mk_path(b, d["back_maxlen"], t0=d["t0"], tag0=0, style=d["style"])
-    forw = F.mk_path(f, d["forw_maxlen"], t0=d["t0"], tag0=d["tag_forw"], style=d["style"])
+    back = P(F, d, b, d["back_maxlen"], t0=d["t0"], tag0=0)
+    forw = P(F, d, f, d["forw_maxlen"], t0=d["t0"], tag0=d["tag_forw"])
     sb, sf = snap(back), snap(forw)
     ids = Ids(F, back, forw)
-    req = f"paste {ids.enc_path(back, sb)} {ids.enc_path(forw, sf)} {int(ov)} {'N' if m is None else m}"
+    req = box["req"] = f"paste {ids.enc_path(back, sb)} {ids.enc_path(forw, sf)} {int(ov)} {'N' if m is None else m}"
     res = paste_paths(back, forw, overlap=ov, maxlen=m)
     sr = snap(res)
     out = ids.enc_path(res, sr)
@@ -361,12 +411,12 @@ def case_paste(F, d):
     return req, out, err
 
 
-def case_reverse(F, d):
+def case_reverse(F, d, box):
     s, revs, ml, rv = d["orders"], d["revs"], d["maxlen"], d["rev_v"]
-    p = F.mk_path(s, ml, t0=3, revs=revs, style=d["style"])
+    p = P(F, d, s, ml, t0=3, revs=revs)
     sp = snap(p)
     ids = Ids(F, p)
-    req = f"reverse {ids.next} {ids.enc_path(p, sp)} {int(rv)}"
+    req = box["req"] = f"reverse {ids.next} {ids.enc_path(p, sp)} {int(rv)}"
     r = p.reverse(None, rev_v=rv)
     sr = snap(r)
     out = ids.enc_path(r, sr)
@@ -388,12 +438,12 @@ def case_reverse(F, d):
     return req, out, err
 
 
-def case_copy(F, d):
+def case_copy(F, d, box):
     s, revs, ml = d["orders"], d["revs"], d["maxlen"]
-    p = F.mk_path(s, ml, t0=3, revs=revs, style=d["style"])
+    p = P(F, d, s, ml, t0=3, revs=revs)
     sp = snap(p)
     ids = Ids(F, p)
-    req = f"copy {ids.next} {ids.enc_path(p, sp)}"
+    req = box["req"] = f"copy {ids.next} {ids.enc_path(p, sp)}"
     c = p.copy()
     sc = snap(c)
     out = ids.enc_path(c, sc)
@@ -407,14 +457,14 @@ def case_copy(F, d):
     return req, out, err
 
 
-def case_iadd(F, d):
+def case_iadd(F, d, box):
     s, o, ml = d["p"], d["other"], d["maxlen"]
-    p = F.mk_path(s, ml, t0=1, style=d["style"])
-    q = F.mk_path(o, 9, t0=2, tag0=50, style=d["style"])
+    p = P(F, d, s, ml, t0=1)
+    q = P(F, d, o, 9, t0=2, tag0=50)
     sp, sq = snap(p), snap(q)
     own = list(p.phasepoints)
     ids = Ids(F, p, q)
-    req = f"iadd {ids.next} {ids.enc_path(p, sp)} {ids.enc_path(q, sq)}"
+    req = box["req"] = f"iadd {ids.next} {ids.enc_path(p, sp)} {ids.enc_path(q, sq)}"
     p += q
     sr = snap(p)
     out = ids.enc_path(p, sr)
@@ -435,20 +485,38 @@ def case_iadd(F, d):
     return req, out, err
 
 
-def case_extremes(F, d):
+def dec_extreme(name, t, n):
+    """(value, index) answered by ordermin/ordermax as exact integers, or OutOfDomain."""
+    try:
+        v, i = t
+        vf, ii = float(v), int(i)
+        same = (ii == i)
+    except Exception as e:
+        raise OutOfDomain(f"{name} = {t!r} is not a (value, frame index) pair ({e!r})")
+    if not same or not 0 <= ii < n:
+        raise OutOfDomain(f"{name} = {t!r}: the index is not a frame of the path ({n} frames)")
+    if not vf.is_integer():
+        raise OutOfDomain(f"{name} = {t!r}: the value is not a progress coordinate of this path (they are integer-valued)")
+    return int(vf), ii
+
+
+def case_extremes(F, d, box):
     s = d["orders"]
-    p = F.mk_path(s, 20, style=d["style"])
+    p = P(F, d, s, 20)
     enc = Ids(F, p).enc_path(p)
-    mn, mx = p.ordermin, p.ordermax
-    out = f"{int(mn[0])}:{int(mn[1])} {int(mx[0])}:{int(mx[1])}"
+    req = box["req"] = f"ext {enc}"
+    mn_raw, mx_raw = p.ordermin, p.ordermax
+    mn, mx = dec_extreme("ordermin", mn_raw, len(s)), dec_extreme("ordermax", mx_raw, len(s))
+    out = f"{mn[0]}:{mn[1]} {mx[0]}:{mx[1]}"
     err = None
-    if mn[0] != min(s) or mx[0] != max(s) or s[int(mn[1])] != min(s) or s[int(mx[1])] != max(s):
-        err = f"ordermin/ordermax {mn},{mx} not attained/extreme"
-    return f"ext {enc}", out, err
+    if mn[0] != min(s) or mx[0] != max(s) or s[mn[1]] != min(s) or s[mx[1]] != max(s):
+        err = (f"ordermin/ordermax = {tuple(mn_raw)},{tuple(mx_raw)} on progress coordinates (first order column) {list(s)} with "
+               f"{d.get('ncol')} order value(s) per frame: not the extreme values {min(s)}, {max(s)} of the first column / not attained at the reported frames")
+    return req, out, err
 
 
 def expected_classification(s, intf):
-    """All four components of check_interfaces, from first/last/min/max only."""
+    """All four components of check_interfaces, from first/last/min/max of the FIRST order column only."""
     lo, hi = min(intf), max(intf)
     mn, mx = min(s), max(s)
     start = "L" if s[0] <= lo else ("R" if s[0] >= hi else "?")
@@ -458,12 +526,20 @@ def expected_classification(s, intf):
     return start, end, middle, cross
 
 
-def case_ci(F, d):
+def case_ci(F, d, box):
     s, intf = d["orders"], d["interfaces"]
-    p = F.mk_path(s, 20, style=d["style"])
+    p = P(F, d, s, 20)
     enc = Ids(F, p).enc_path(p)
-    st, en, mid, cross = p.check_interfaces(list(intf))
-    out = f"{side(st)} {side(en)} {int(mid == 'M')} {','.join(str(int(bool(c))) for c in cross)}"
+    req = box["req"] = f"ci {enc} {','.join(map(str, intf))}"
+    res = p.check_interfaces(list(intf))
+    try:
+        st, en, mid, cross = res
+        cross = [bool(c) for c in cross]
+    except Exception as e:
+        raise OutOfDomain(f"check_interfaces = {res!r} is not (start, end, middle, [crossing flags]) ({e!r})")
+    if mid not in ("M", "*") or len(cross) != len(intf):
+        raise OutOfDomain(f"check_interfaces = {res!r}: middle marker is neither 'M' nor '*' or the number of crossing flags is not the number of interfaces")
+    out = f"{side(st)} {side(en)} {int(mid == 'M')} {','.join(str(int(c)) for c in cross)}"
     e_st, e_en, e_mid, e_cross = expected_classification(s, intf)
     errs = []
     if side(st) != e_st:
@@ -472,20 +548,21 @@ def case_ci(F, d):
         errs.append(f"end {en!r} but the last value {s[-1]} makes it {e_en!r}")
     if (mid == "M") != e_mid:
         errs.append(f"middle marker {mid!r} but min {min(s)} < {intf[1]} <= max {max(s)} is {e_mid}")
-    if [bool(c) for c in cross] != e_cross:
-        errs.append(f"crossing flags {list(cross)} but the extremes [{min(s)}, {max(s)}] give {e_cross}")
+    if cross != e_cross:
+        errs.append(f"crossing flags {cross} but the extremes [{min(s)}, {max(s)}] give {e_cross}")
     err = None
     if errs:
-        err = f"check_interfaces(orders={list(s)}, interfaces={list(intf)}) = {(st, en, mid, list(cross))!r} disagrees with the extreme values: " + "; ".join(errs)
-    return f"ci {enc} {','.join(map(str, intf))}", out, err
+        err = (f"check_interfaces(progress coordinates={list(s)}, {d.get('ncol')} order value(s) per frame, interfaces={list(intf)}) = "
+               f"{(st, en, mid, cross)!r} disagrees with the extreme values of the first order column: " + "; ".join(errs))
+    return req, out, err
 
 
-def case_se(F, d):
+def case_se(F, d, box):
     s, left, right = d["orders"], d["left"], d["right"]
-    p = F.mk_path(s, 20, style=d["style"])
+    p = P(F, d, s, 20)
     enc = Ids(F, p).enc_path(p)
     r_eff = left if right is None else right
-    req = f"se {enc} {left} {r_eff}"
+    req = box["req"] = f"se {enc} {left} {r_eff}"
     try:
         if right is None:
             st, en = p.get_start_point(left), p.get_end_point(left)
@@ -499,13 +576,56 @@ def case_se(F, d):
         e_st = "L" if s[0] <= left else ("R" if s[0] >= r_eff else "?")
         e_en = "L" if s[-1] <= left else ("R" if s[-1] >= r_eff else "?")
         if (side(st), side(en)) != (e_st, e_en):
-            err = (f"get_start_point/get_end_point(left={left}, right={right}) on orders {list(s)} gave {st!r},{en!r}; "
-                   f"first/last value {s[0]},{s[-1]} make it {e_st!r},{e_en!r}")
+            err = (f"get_start_point/get_end_point(left={left}, right={right}) on progress coordinates {list(s)} ({d.get('ncol')} order value(s) per frame) "
+                   f"gave {st!r},{en!r}; first/last value {s[0]},{s[-1]} make it {e_st!r},{e_en!r}")
     return req, out, err
 
 
+def case_success(F, d, box):
+    s, target = d["orders"], d["target"]
+    p = P(F, d, s, 20)
+    enc = Ids(F, p).enc_path(p)
+    req = box["req"] = f"succ {enc} {target}"
+    r = p.success(target)
+    if not isinstance(r, (bool, np.bool_)):
+        raise OutOfDomain(f"success({target}) = {r!r} is not a truth value")
+    err = None
+    if bool(r) != (max(s) > target):
+        err = (f"success({target}) = {bool(r)} on progress coordinates {list(s)} ({d.get('ncol')} order value(s) per frame), "
+               f"but the largest value of the first order column is {max(s)}")
+    return req, str(int(bool(r))), err
+
+
 CASES = {"paste": case_paste, "reverse": case_reverse, "copy": case_copy, "iadd": case_iadd,
-         "extremes": case_extremes, "check_interfaces": case_ci, "start_end": case_se}
+         "extremes": case_extremes, "check_interfaces": case_ci, "start_end": case_se, "success": case_success}
+
+
+def brief(d):
+    keys = ("orders", "interfaces", "left", "right", "target", "back", "forw", "overlap", "maxlen", "p", "other", "rev_v", "ncol", "style")
+    return ", ".join(f"{k}={d[k]!r}" for k in keys if k in d)
+
+
+def evaluate(F, desc):
+    """Run one case under a guard.  Always returns (request or None, implementation's answer, error or None):
+    an exception of the implementation or an answer outside the property's domain is an oracle failure on
+    this concrete input, never a crash of the check."""
+    box = {}
+    try:
+        return CASES[desc["op"]](F, desc, box)
+    except OutOfDomain as e:
+        return box.get("req"), "OUT-OF-DOMAIN", f"{desc['op']}: answer outside the domain of the property on input ({brief(desc)}): {e}"
+    except Exception as e:
+        root = os.path.realpath(common.REPO) + os.sep
+        tb = traceback.extract_tb(e.__traceback__)
+        inside = [f for f in tb if os.path.realpath(f.filename).startswith(root)]
+        if inside:
+            f = inside[-1]
+            where = f"raised by the implementation at {os.path.realpath(f.filename)[len(root):]}:{f.lineno} in {f.name}"
+        else:
+            f = tb[-1]
+            where = f"raised at {os.path.basename(f.filename)}:{f.lineno} in {f.name} while the answer of the implementation was evaluated"
+        return (box.get("req"), f"RAISED {type(e).__name__}",
+                f"{desc['op']}: {e!r} {where}, on input ({brief(desc)})")
 
 
 def run(ctx):
@@ -513,21 +633,29 @@ def run(ctx):
     runner = common.runner_stage(ctx, "c15")
     if runner is None:
         return
-    F = Frames()
+    try:
+        F = Frames()
+    except Exception as e:      # the classes themselves are gone or no longer what the model describes
+        ctx.violation(f"C15 cannot build frames from infretis.classes.system.System: {e!r}",
+                      {"obligation": "System() with the fields the model reduces (order, vel_rev)", "traceback": traceback.format_exc()[-2000:]}, False)
+        return
 
     maxL = 4 if ctx.tier == "quick" else 5
-    reqs, metas = [], []
+    cases = []          # (request or None, implementation's answer, oracle error or None, description)
     rng = ctx.rng
 
     def style():
         return "sparse" if rng.random() < 0.15 else "full"
 
+    def ncols():
+        return rng.choice(NCOLS)
+
     def add(desc, dist):
-        req, impl_out, err = CASES[desc["op"]](F, desc)
-        reqs.append(req)
-        metas.append((impl_out, err, desc))
+        req, impl_out, err = evaluate(F, desc)
+        cases.append((req, impl_out, err, desc))
         ctx.dist(dist)
         ctx.dist("frames:" + desc["style"])
+        ctx.dist(f"order values per frame:{desc['ncol']}")
 
     seqs = [()]
     for L in range(1, maxL + 1):
@@ -543,37 +671,53 @@ def run(ctx):
         for m in sorted({0, 1, 2, len(b), max(len(b) + len(f) - 1, 0), len(b) + len(f), 8}):
             for ov in (True, False):
                 add({"op": "paste", "back": b, "forw": f, "overlap": ov, "maxlen": m, "back_maxlen": 10, "forw_maxlen": 10,
-                     "t0": 7, "tag_forw": 100, "style": style()}, "paste")
+                     "t0": 7, "tag_forw": 100, "style": style(), "ncol": ncols()}, "paste")
 
     # ---------------- reverse / copy / iadd / extremes / classification on every sequence
     intf_sets_zero = [(-2, -1, 0), (-2, 0), (-2, -2, 0), (0, 0, 0), (-1, 0, 1), (0, 1), (-3, 0)]
     intf_sets = [(1, 2, 3), (1, 1, 3), (1, 3, 3), (2, 2, 2), (3, 2, 1), (0, 2, 4), (1, 2), (2, 1, 3, 0), (0, 4, 4), (1, 0, 3)]
     lr_sets = [(1, 3), (2, 2), (0, 4), (2, None), (3, 1), (4, None)]
     lr_sets_zero = [(-2, 0), (-3, 0), (0, None), (-1, 0), (0, 0), (-1, None)]
+    targets = [-1, 0, 1, 2, 3, 4, 5]
+    targets_zero = [-3, 0, 1]
+    turn = 0            # 1, 2, 3, 1, ... order values per frame: every sequence meets every number in every group of cases
+
+    def nc():
+        nonlocal turn
+        turn += 1
+        return NCOLS[turn % len(NCOLS)]
+
     for s in seqs:
         revs = [rng.random() < 0.5 for _ in s]
-        for ml in sorted({max(len(s), 1), len(s) + 3, max(len(s) - 1, 0)}):
+        for ml in sorted({max(len(s), 1), len(s) + 3, max(len(s) - 1, 0)}):     # three limits, three numbers of columns
+            k = nc()
             for rv in (True, False):
-                add({"op": "reverse", "orders": s, "revs": revs, "maxlen": ml, "rev_v": rv, "style": style()}, "reverse")
-            add({"op": "copy", "orders": s, "revs": revs, "maxlen": ml, "style": style()}, "copy")
+                add({"op": "reverse", "orders": s, "revs": revs, "maxlen": ml, "rev_v": rv, "style": style(), "ncol": k}, "reverse")
+            add({"op": "copy", "orders": s, "revs": revs, "maxlen": ml, "style": style(), "ncol": k}, "copy")
+        turn += 1       # the next sequence starts one further
         if len(s) <= 3:
             for o in short[:: max(1, len(short) // 12)]:
                 for ml in (len(s), len(s) + 1, len(s) + len(o), 9):
-                    add({"op": "iadd", "p": s, "other": o, "maxlen": ml, "style": style()}, "iadd")
+                    add({"op": "iadd", "p": s, "other": o, "maxlen": ml, "style": style(), "ncol": nc()}, "iadd")
         if s:
-            add({"op": "extremes", "orders": s, "style": "full"}, "extremes")
+            for k in NCOLS:
+                add({"op": "extremes", "orders": s, "style": "full", "ncol": k}, "extremes")
             for intf in intf_sets:
-                add({"op": "check_interfaces", "orders": s, "interfaces": intf, "style": "full"}, "check_interfaces")
+                add({"op": "check_interfaces", "orders": s, "interfaces": intf, "style": "full", "ncol": nc()}, "check_interfaces")
             for left, right in lr_sets:
-                add({"op": "start_end", "orders": s, "left": left, "right": right, "style": "sparse"}, "start_end")
+                add({"op": "start_end", "orders": s, "left": left, "right": right, "style": "sparse", "ncol": nc()}, "start_end")
+            for t in targets:
+                add({"op": "success", "orders": s, "target": t, "style": "full", "ncol": nc()}, "success")
             # the same classification with negative values and an interface that is exactly 0 (a falsy number)
             s0 = tuple(o - 3 for o in s)
             for intf in intf_sets_zero:
-                add({"op": "check_interfaces", "orders": s0, "interfaces": intf, "style": "sparse"}, "check_interfaces_zero")
+                add({"op": "check_interfaces", "orders": s0, "interfaces": intf, "style": "sparse", "ncol": nc()}, "check_interfaces_zero")
             for left, right in lr_sets_zero:
-                add({"op": "start_end", "orders": s0, "left": left, "right": right, "style": "full"}, "start_end_zero")
+                add({"op": "start_end", "orders": s0, "left": left, "right": right, "style": "full", "ncol": nc()}, "start_end_zero")
+            for t in targets_zero:
+                add({"op": "success", "orders": s0, "target": t, "style": "sparse", "ncol": nc()}, "success_zero")
 
-    # ---------------- seeded random larger cases (paste incl. maxlen=None / reverse / copy)
+    # ---------------- seeded random larger cases (paste incl. maxlen=None / reverse / copy / classification)
     nrand = 300 if ctx.tier == "quick" else 3000
     for _ in range(nrand):
         b = tuple(rng.randrange(-50, 50) for _ in range(rng.randrange(0, 30)))
@@ -586,41 +730,60 @@ def run(ctx):
         else:
             m, bml, fml = rng.randrange(0, 70), 40, 40
         add({"op": "paste", "back": b, "forw": f, "overlap": ov, "maxlen": m, "back_maxlen": bml, "forw_maxlen": fml,
-             "t0": rng.randrange(-5, 5), "tag_forw": 1000, "style": style()}, "paste_random")
+             "t0": rng.randrange(-5, 5), "tag_forw": 1000, "style": style(), "ncol": ncols()}, "paste_random")
     for _ in range(nrand // 3):
         s = tuple(rng.randrange(-50, 50) for _ in range(rng.randrange(1, 30)))
         revs = [rng.random() < 0.5 for _ in s]
         add({"op": "reverse", "orders": s, "revs": revs, "maxlen": len(s) + rng.randrange(0, 5), "rev_v": rng.random() < 0.7,
-             "style": "full"}, "reverse_random")
-        add({"op": "copy", "orders": s, "revs": revs, "maxlen": len(s) + rng.randrange(0, 5), "style": "full"}, "copy_random")
+             "style": "full", "ncol": ncols()}, "reverse_random")
+        add({"op": "copy", "orders": s, "revs": revs, "maxlen": len(s) + rng.randrange(0, 5), "style": "full", "ncol": ncols()}, "copy_random")
+        if len(s) <= 20:     # paths of the classification cases have maxlen 20
+            intf = tuple(sorted(rng.randrange(-50, 50) for _ in range(3)))
+            k = ncols()
+            add({"op": "extremes", "orders": s, "style": style(), "ncol": k}, "extremes_random")
+            add({"op": "check_interfaces", "orders": s, "interfaces": intf, "style": style(), "ncol": k}, "check_interfaces_random")
+            add({"op": "success", "orders": s, "target": intf[1], "style": style(), "ncol": k}, "success_random")
 
-    outs = runner.run(reqs)
+    reqs = [c[0] for c in cases if c[0] is not None]
+    try:
+        outs = runner.run(reqs)
+    except Exception as e:      # the oracle's findings below do not depend on the model
+        ctx.violation(f"model runner failed on the generated requests: {e!r}",
+                      {"obligation": "bin/c15 answers every request", "log_tail": str(getattr(e, "log", ""))[-1500:]}, False)
+        outs = None
+    it = iter(outs) if outs is not None else None
     corr_fail = 0
     stmt_fail = 0
     first_mark = len(ctx.violations)
     seen_ops = set()
-    for req, mo, (io, err, desc) in zip(reqs, outs, metas):
-        ctx.count(req, nontrivial=True)
+    answers = []
+    for req, io, err, desc in cases:
+        mo = (next(it) if it is not None else "<model runner failed>") if req is not None else "<no request: the input could not be built>"
+        answers.append(mo)
+        ctx.count(req if req is not None else repr(desc), nontrivial=True)
         if err:
             stmt_fail += 1
-            if stmt_fail > 200 and desc["op"] in seen_ops:
-                continue      # only the first 20 are written anyway; keep one of every operation
-            seen_ops.add(desc["op"])
+            kind = "raised" if io.startswith("RAISED") else ("out-of-domain answer" if io == "OUT-OF-DOMAIN" else "wrong answer")
+            if stmt_fail > 200 and (desc["op"], kind) in seen_ops:
+                continue      # only the first 20 are written anyway; keep one of every operation and kind of failure
+            seen_ops.add((desc["op"], kind))
             ctx.violation(f"C15 statement fails on the implementation: {err}",
-                          {"case": desc, "impl": io, "model": mo, "request": req,
-                           "frames": "System objects built by checks/c15.py Frames.new_frame(order, k, vel_rev, style): style 'full' = every field of "
-                                     "vars(System()) non-default + attached c15_note/c15_thermostat, 'sparse' = order/config/vel_rev/vpot only; "
-                                     "k = position (+ tag offset of the segment); --replay rebuilds them and re-runs the real code"}, True)
-        elif mo != io:
+                          {"case": desc, "impl": io, "model": mo, "request": req, "kind": kind,
+                           "frames": "System objects built by checks/c15.py Frames.mk_path(orders, ..., style, ncol): order = [progress coordinate] + "
+                                     "extra_columns(orders, ncol) (ncol = order values per frame; only the FIRST is the progress coordinate the oracle uses); "
+                                     "style 'full' = every field of vars(System()) non-default + attached c15_note/c15_thermostat, 'sparse' = "
+                                     "order/config/vel_rev/vpot only; k = position (+ tag offset of the segment); --replay rebuilds them and re-runs the real code"}, True)
+        elif it is not None and mo != io:
             corr_fail += 1
             if corr_fail <= 3:
-                ctx.violation(f"correspondence model/implementation broken for {desc['op']} (property oracle found no failing input among {len(reqs)} cases)",
+                ctx.violation(f"correspondence model/implementation broken for {desc['op']} (property oracle found no failing input among {len(cases)} cases)",
                               {"correspondence": "c15 runner vs infretis.classes.path", "case": desc, "impl": io, "model": mo, "request": req}, False)
-    # report one failing input of every operation before the further ones of the same operation
+    # report one failing input of every operation and kind of failure (wrong answer / exception / answer outside the
+    # domain) before the further ones of the same operation and kind
     mine = ctx.violations[first_mark:]
     firsts, rest, ops = [], [], set()
     for v in mine:
-        op = v[1].get("case", {}).get("op") if v[2] else None
+        op = (v[1].get("case", {}).get("op"), v[1].get("kind")) if v[2] else None
         if v[2] and op not in ops:
             ops.add(op)
             firsts.append(v)
@@ -629,8 +792,10 @@ def run(ctx):
     ctx.violations[first_mark:] = firsts + [v for v in rest if v[2]] + [v for v in rest if not v[2]]
     # every declared field of the real System class (and the attached ones) must have been exercised
     touched = set()
-    for _, _, desc in metas:
+    multi = {}       # operation -> numbers of order values per frame it was evaluated with
+    for _, _, _, desc in cases:
         touched.update(desc.pop("_touched", ()))
+        multi.setdefault(desc["op"], set()).add(desc["ncol"])
     if not stmt_fail:
         missing = [n for n in F.declared + list(DYNAMIC) if n not in F.used_fields]
         if missing:
@@ -640,18 +805,27 @@ def run(ctx):
         if not_touched:
             ctx.violation(f"copy-independence clause was not evaluated for fields {not_touched}",
                           {"obligation": "re-assignment of every field of a copied frame", "declared": F.declared}, False)
-    for k in (0, len(reqs) // 3, len(reqs) // 2, len(reqs) - 1):
-        ctx.sample({"request": reqs[k], "model": outs[k], "impl": metas[k][0]})
+        thin = sorted(op for op in CASES if multi.get(op) != set(NCOLS))
+        if thin:
+            ctx.violation(f"operations {thin} were not evaluated with {list(NCOLS)} order values per frame",
+                          {"obligation": "every operation meets frames with extra order columns", "seen": {k: sorted(v) for k, v in multi.items()}}, False)
+    for k in (0, len(cases) // 3, len(cases) // 2, len(cases) - 1):
+        ctx.sample({"request": cases[k][0], "model": answers[k], "impl": cases[k][1]})
     ctx.cov["rule"] = (f"exhaustive: all order sequences over alphabet {ALPHA} up to length {maxL} (reverse/copy/extremes/classification with "
-                       f"{len(intf_sets) + len(intf_sets_zero)} interface lists, {len(lr_sets) + len(lr_sets_zero)} (left,right) pairs), all (back,forw) pairs up to length {pasteL} x up to 7 limits x 2 overlap flags for paste; "
-                       f"{nrand} seeded random pastes (1 in 5 with maxlen=None), {nrand // 3} random reverses and copies; frames are whole System objects "
-                       f"(fields {F.declared} from the real class + attached {list(DYNAMIC)}, all non-default; 15% of the cases use sparse frames with default fields); "
+                       f"{len(intf_sets) + len(intf_sets_zero)} interface lists, {len(lr_sets) + len(lr_sets_zero)} (left,right) pairs, {len(targets) + len(targets_zero)} success targets), "
+                       f"all (back,forw) pairs up to length {pasteL} x up to 7 limits x 2 overlap flags for paste; "
+                       f"{nrand} seeded random pastes (1 in 5 with maxlen=None), {nrand // 3} random reverses, copies and classifications; frames are whole System objects "
+                       f"(fields {F.declared} from the real class + attached {list(DYNAMIC)}, all non-default; 15% of the cases use sparse frames with default fields) "
+                       f"carrying {list(NCOLS)} order values (every sequence meets all three in every group: extremes x3, the others in turn; order[0] = progress coordinate, "
+                       f"order[1:] = extra columns whose extremes lie in other frames and outside the progress range); the oracle uses the first column only; "
                        f"a case is distinct by its request line; all are non-trivial (each exercises a modelled operation)")
     ctx.cov["correspondence"] = {"compared": len(reqs), "disagreements": corr_fail, "oracle_failures": stmt_fail,
-                                 "distinct_payloads": len(F.tags), "system_fields": F.declared, "attached_fields": list(DYNAMIC)}
+                                 "distinct_payloads": len(F.tags), "system_fields": F.declared, "attached_fields": list(DYNAMIC),
+                                 "order_values_per_frame": {op: sorted(v) for op, v in sorted(multi.items())}}
     ctx.cov["trusted_base"] += ["extraction: ExtrOcamlBasic only; ocaml/util.ml + ocaml/c15_driver.ml", "py/checks/c15.py generators, canonical form of attribute values and encoders"]
-    ctx.assumptions += ["orders are integer-valued floats (exact comparisons)",
-                        "System reduced to (order[0], vel_rev, object identity, payload = interned content of every other attribute in vars(frame))",
+    ctx.assumptions += ["progress coordinates (order[0]) are integer-valued floats, extra order columns exact dyadic floats (exact comparisons)",
+                        "System reduced to (order[0] = progress coordinate, vel_rev, object identity, payload = interned content of every other attribute in vars(frame), order[1:] included)",
+                        "an order list has 1 to 3 entries; only order[0] is interpreted by the property, the extra collective variables are payload",
                         "attribute equality is by value (numpy arrays by shape/dtype/bytes)"]
 
 
@@ -663,7 +837,7 @@ def replay(doc):
     case = rep.get("case")
     if isinstance(case, dict) and case.get("op") in CASES:
         case = {k: (tuple(v) if isinstance(v, list) and k in ("orders", "back", "forw", "p", "other", "interfaces") else v) for k, v in case.items()}
-        req, out, err = CASES[case["op"]](Frames(), case)
+        req, out, err = evaluate(Frames(), case)
         print("request now:", req)
         print("implementation now answers:", out)
         print("property oracle now says:", err or "holds on this input")
